@@ -33,6 +33,12 @@ class Path:
     def fork(self):
         q = Path()
         q.env = dict(self.env)
+        for k, v in q.env.items():
+            if isinstance(v, VPartial):
+                # the object under construction is mutable state of the path
+                c = VPartial(v.name, v.pycls)
+                c.fields, c.extra = dict(v.fields), dict(v.extra)
+                q.env[k] = c
         q.pc = list(self.pc)
         q.heap = dict(self.heap)
         q.ghost = dict(self.ghost)
@@ -74,6 +80,16 @@ class Path:
 STATS = {'feas_checks': 0}
 
 
+def copy_env(env):
+    e = dict(env)
+    for k, v in e.items():
+        if isinstance(v, VPartial):
+            c = VPartial(v.name, v.pycls)
+            c.fields, c.extra = dict(v.fields), dict(v.extra)
+            e[k] = c
+    return e
+
+
 class Res:
     """result of evaluating an expression on one path"""
     __slots__ = ('p', 'v', 'exc')
@@ -94,6 +110,7 @@ class Obligation:
     def __init__(self, name, props, pc, goal, func, trail, lineno=None, kind='ensures', note=''):
         self.name, self.props, self.pc, self.goal = name, props, pc, goal
         self.func, self.trail, self.lineno, self.kind, self.note = func, trail, lineno, kind, note
+        self.env = None
 
 
 MUTATING = {'append', 'insert', 'pop', 'remove', 'clear', 'extend', 'update', 'add'}
@@ -161,8 +178,12 @@ class Executor:
                    facts=_FactSink(p), repo=self.repo, ghost=p.ghost, old_ghost=e.ghost if e else None)
 
     def oblige(self, p, goal, name, props, kind, lineno=None, note=''):
-        self.obligations.append(Obligation(name, props, list(p.pc), goal, self.func.qual if self.func else '?',
-                                           list(p.trail), lineno, kind, note))
+        trail = [((t[0], self.rel(t[1])) + tuple(t[2:])) if len(t) > 1 and isinstance(t[1], int) else t
+                 for t in p.trail]
+        ob = Obligation(name, props, list(p.pc), goal, self.func.qual if self.func else '?',
+                        trail, lineno, kind, note)
+        ob.env = dict(p.env)
+        self.obligations.append(ob)
 
     # ==============================================================================================
     # name resolution
@@ -404,11 +425,12 @@ class Executor:
         return self.eval_list([e.left, e.right], p, lambda p2, vals: self.binop(op, vals[0], vals[1], p2, e))
 
     def binop(self, op, a, b, p, node):
-        a, b = self.unopt(a, p), self.unopt(b, p)
-        if a is None or b is None:
-            return [Res(p, exc=VExc('TypeError'))]
         if (a is VNone or b is VNone):
             return [Res(p, exc=VExc('TypeError'))]
+        if isinstance(a, VOpt):
+            return self.none_deref_type(a, p, node, lambda p2, x: self.binop(op, x, b, p2, node))
+        if isinstance(b, VOpt):
+            return self.none_deref_type(b, p, node, lambda p2, x: self.binop(op, a, x, p2, node))
         if isinstance(a, VRec) or isinstance(b, VRec) or isinstance(a, VOpaque) or isinstance(b, VOpaque):
             return self.builtins.rec_binop(self, op, a, b, p, node)
         return self.lift(p, ops.binop(op, a, b))
@@ -522,10 +544,28 @@ class Executor:
             return self.none_deref(base, p, node, lambda p2, b: self.load_attr(b, attr, p2, node))
         if isinstance(base, VRec):
             if base.name in UNIONS:
-                try:
-                    return [Res(p, self.spec.union_attr(base, attr, self.ctx(p)))]
-                except VError:
-                    return [Res(p, VFunc(None, self_v=base, cls=('union', attr)))]
+                u = UNIONS[base.name]
+                is_meth = False
+                is_field = False
+                for m in u.members:
+                    rm = RECS[m]
+                    if attr in rm.fields:
+                        is_field = True
+                    elif self.repo.find_method(rm.tagged[0] if rm.tagged else rm.pyclass, attr):
+                        is_meth = True
+                if is_meth or is_field:
+                    # method or instance field of some members: dispatch on the dynamic class
+                    if is_meth:
+                        return [Res(p, VFunc(None, self_v=base, cls=('union', attr)))]
+                    rec_sort(base.name)
+                    out = []
+                    for m in u.members:
+                        q = p.fork()
+                        if not q.assume(u.test[m](base.z), ('union', node.lineno, m)):
+                            continue
+                        out.extend(self.load_attr(VRec(m, u.acc[m](base.z)), attr, q, node))
+                    return out
+                return [Res(p, self.spec.union_attr(base, attr, self.ctx(p)))]
             r = RECS[base.name]
             if attr in r.fields:
                 fv = rec_get(base, attr)
@@ -539,6 +579,8 @@ class Executor:
                         out.append(Res(p, fv.val))
                     return out
                 return [Res(p, fv)]
+            if self.class_attr(r.tagged[0] if r.tagged else r.pyclass, attr) is None:
+                return [Res(p, exc=VExc('AttributeError'))]
             v = self.class_attr_of_value(base, attr, None) if not r.tagged or not self.repo.find_method(r.tagged[0], attr) \
                 else self.class_attr(r.tagged[0], attr)
             return self.bind_method(v, base, attr, p, node)
@@ -680,7 +722,12 @@ class Executor:
                     return [Res(p2, VNone)]
                 raise VError(f'super().{meth} not found for {cls}')
             if meth == '__init__':
-                return self.inline_call(fq, [selfv] + args, kwargs, p2, e)
+                sname = self.func.node.args.args[0].arg
+
+                def back(p3, sv):
+                    p3.env[sname] = sv
+                    return [Res(p3, VNone)]
+                return self.bind(self.inline_call(fq, [p2.env.get(sname)] + args, kwargs, p2, e), back)
             return self.call_function(fq, [selfv] + args, kwargs, p2, e)
         return self.eval_list(list(e.args) + [k.value for k in e.keywords], p, ka)
 
@@ -726,6 +773,8 @@ class Executor:
             return self.call_lambda(f, args, p, node)
         if isinstance(f, VOpaque):
             return self.builtins.call_opaque(self, f, args, kwargs, p, node)
+        if isinstance(f, VObj):
+            return self.builtins.call_obj(self, f, args, kwargs, p, node)
         if isinstance(f, VOpt) or f is VNone:
             return self.none_deref(f, p, node, lambda p2, g: self.call_value(g, args, kwargs, p2, node))
         raise Unsupported(f'call of {f!r} at {self.where(node)}')
@@ -743,7 +792,7 @@ class Executor:
         rs = self.eval(lam.node.body, p)
         out = []
         for r in rs:
-            r.p.env = saved
+            r.p.env = copy_env(saved)
             out.append(r)
         return out
 
@@ -801,7 +850,7 @@ class Executor:
             if fq in INLINE:
                 part = VPartial(REC_OF_CLASS[q][0], q)
                 rs = self.inline_call(fq, [part] + args, kwargs, p, node)
-                return self.bind(rs, lambda p2, _: [Res(p2, self.finish_partial(part))])
+                return self.bind(rs, lambda p2, sv: [Res(p2, self.finish_partial(sv))])
             c = CONTRACTS.get(fq)
             if c is None:
                 raise VError(f'missing contract for constructor {fq} (called at {self.where(node)})')
@@ -844,15 +893,41 @@ class Executor:
         return v
 
     # ----------------------------------------------------------------------------------------------
+    def call_index(self, node):
+        """ordinal of a call expression among the calls of the enclosing function (source order):
+        stable under edits elsewhere in the file, unlike line numbers"""
+        f = self.func
+        cache = getattr(self, '_call_idx', None)
+        if cache is None or cache[0] is not f.node:
+            calls = [n for n in ast.walk(f.node) if isinstance(n, ast.Call)]
+            calls.sort(key=lambda n: (n.lineno, n.col_offset))
+            cache = (f.node, {id(n): i for i, n in enumerate(calls)})
+            self._call_idx = cache
+        return cache[1].get(id(node), 'x')
+
+    def rel(self, lineno):
+        """line number relative to the function under verification (for path signatures)"""
+        f = self.func
+        while isinstance(f, _InlineFunc):
+            f = f.outer
+        return lineno - f.node.lineno if isinstance(lineno, int) else lineno
+
     def apply_contract(self, c, fi, bound, p, node, ctor_of=None):
         """replace a call by the callee's contract"""
         k = self.call_ordinals.get(fi.qual, 0)
         self.call_ordinals[fi.qual] = k + 1
         short = fi.qual.split('.', 1)[1]
         env = {}
+        cname = f'call:{short}#{self.call_index(node)}'
         for n, v in bound.items():
             t = c.params.get(n)
             if t is not None and not isinstance(v, (VClass,)) and not isinstance(t, str):
+                if isinstance(v, VOpt) and t.kind != 'opt':
+                    # an Optional passed where the callee needs a value: call-site obligation "not None"
+                    self.oblige(p, z3.Not(v.isnone), f'{self.func.qual.split(".", 1)[1]}/{cname}/arg-{n}-not-None',
+                                self.contract.props if self.contract else [], 'call-pre', node.lineno)
+                    p.add(z3.Not(v.isnone))
+                    v = v.val
                 try:
                     v = from_z3(to_z3(v, t), t)
                 except VError as ex:
@@ -867,7 +942,7 @@ class Executor:
         # preconditions are call-site obligations
         for cl in c.requires:
             goal = self.spec.bool(cl.ast, ctx)
-            self.oblige(p, goal, f'{self.func.qual.split(".", 1)[1]}/call:{short}@{node.lineno}/{cl.name}',
+            self.oblige(p, goal, f'{self.func.qual.split(".", 1)[1]}/{cname}/{cl.name}',
                         self.contract.props if self.contract else cl.props, 'call-pre', node.lineno)
         out = []
         pre_heap, pre_ghost = dict(p.heap), dict(p.ghost)
@@ -953,14 +1028,17 @@ class Executor:
             self.depth -= 1
             self.module, self.func = saved_mod, saved_func
         res = []
+        is_init = fi.node.name == '__init__'
+        selfname = fi.node.args.args[0].arg if fi.node.args.args else None
         for o in outs:
-            o.p.env = saved_env
+            selfv = o.p.env.get(selfname) if is_init else None
+            o.p.env = copy_env(saved_env)
             if o.kind == 'raise':
                 res.append(Res(o.p, exc=o.v))
             elif o.kind == 'return':
-                res.append(Res(o.p, o.v if o.v is not None else VNone))
+                res.append(Res(o.p, selfv if is_init else (o.v if o.v is not None else VNone)))
             elif o.kind == 'next':
-                res.append(Res(o.p, VNone))
+                res.append(Res(o.p, selfv if is_init else VNone))
             else:
                 raise VError('break/continue escaped a function')
         return res
@@ -1119,6 +1197,12 @@ class Executor:
         if isinstance(base, VPartial):
             r = RECS[base.name]
             if attr in r.fields:
+                if isinstance(v, VOpt) and r.fields[attr].kind != 'opt':
+                    q = p.fork()
+                    if q.assume(v.isnone):
+                        raise VError(f'possibly-None value stored into field {base.name}.{attr} declared '
+                                     f'{r.fields[attr]} at {self.where(target)}')
+                    v = v.val
                 base.fields[attr] = v
             else:
                 base.extra[attr] = v
@@ -1341,6 +1425,15 @@ class Executor:
         ectx = self.ctx(p)
         for cl in ls.invariant:
             self.oblige(p, self.spec.bool(cl.ast, ectx), f'{fshort}/{cl.name}/entry', cl.props, 'loop-entry', s.lineno)
+        if getattr(ls, 'bound', None) is not None:
+            # iteration bound: the variant is at most `bound` when the loop is entered (with the variant
+            # obligation this bounds the number of iterations: the cost clause of C06/C17)
+            if ls.variant is not None:
+                ve = ops.as_int(self.spec.ev(ls.variant.ast, ectx)).z
+            else:
+                ve = auto_variant(p)
+            b = ops.as_int(self.spec.ev(ast.parse(ls.bound, mode='eval').body, ectx)).z
+            self.oblige(p, ve <= b, f'{fshort}/loop{k}/bound', props, 'loop-entry', s.lineno)
         # 2. havoc the variables the body assigns
         h = p
         names = [n for n in self.assigned_names(s.body) if n != 'self'] + list(extra_havoc)
